@@ -513,6 +513,7 @@ def run(ctx):
                 "non-trivial = at least one trypop returned NULL in the implementation trace"})
     if not ok_all or ctx.failures:
         search(ctx, exes)
+    core.init_contract(ctx, ["mpsc_fifo", "spsc_fifo", "mpsc_relaxed_fifo"])  # rt/h_init.c: real init on dirty memory
     core.finish(ctx, extra_assumptions=ASSUME)
 
 
@@ -549,6 +550,8 @@ def corpus(ctx, kind):
 
 
 def replay(ctx, payload):
+    if payload.get("harness") == "h_init":
+        return core.replay_init(ctx, payload)
     kind = str(payload.get("harness", ""))
     catchall = kind.endswith("+catchall")
     kind = kind[:-len("+catchall")] if catchall else kind
